@@ -1,11 +1,11 @@
 CONSTANTS
   Fam = "lex"
   NM = 1
-  KindSet = {"plain", "arg", "str", "xstr", "catl", "catr", "cate"}
+  KindSet = {"plain", "xstr", "catl", "cate"}
   MaxBody = 3
   MaxInv = 5
   BodyAlpha = {"x", "y", "V", "#x", "#y", "#V", "#", "##", "f", "a", "1"}
-  InvAlpha = {"0x", "1", "5", ".", "e", "E", "p", "P", "a", "+", "-", "X", " "}
+  InvAlpha = {"0x", "1", ".", "e", "E", "P", "+", "-", "X", " "}
   VarWs = FALSE
   InvHead = TRUE
   InvBal = TRUE
